@@ -7,7 +7,7 @@ import z3
 
 from .types import (T, INT, BOOL, BYTES, STR, NONE, ANY, OPT, LIST, SET, MAP, TUPLE, CLS, Outside, to_sort, opt_sort,
                     tuple_sort, BYTES_SORT)
-from .engine import (V, Ref, HeapObj, ExcVal, Raised, Closure, BoundMethod, BuiltinMethod, LocalClass, Frame, State,
+from .engine import (RangeV, IterV, V, Ref, HeapObj, ExcVal, Raised, Closure, BoundMethod, BuiltinMethod, LocalClass, Frame, State,
                      is_concrete)
 from .interp import Ctl, _is_true, _is_false
 from .calls import Calls
@@ -409,14 +409,8 @@ class Stmts(Calls):
                 raise Outside("iteration over mutable %s" % h.kind)
         if isinstance(it, (list,)):
             return len(it), (lambda i: it[i]) if True else None
-        if isinstance(it, tuple) and it and it[0] == 'range':
-            args = it[1:]
-            if len(args) == 1:
-                lo, hi, step = 0, args[0], 1
-            elif len(args) == 2:
-                lo, hi, step = args[0], args[1], 1
-            else:
-                lo, hi, step = args
+        if isinstance(it, RangeV):
+            lo, hi, step = it.lo, it.hi, it.step
             if not (is_concrete(step) and step in (1,)):
                 if is_concrete(step) and step > 1 and is_concrete(lo):
                     hit, lot = self.term(hi, INT), self.term(lo, INT)
@@ -428,15 +422,17 @@ class Stmts(Calls):
             if is_concrete(lo) and is_concrete(hi):
                 return max(0, hi - lo), (lambda i: self._add(lo, i))
             n = self.term(hi, INT) - self.term(lo, INT)
+            if is_concrete(lo) and lo == 0 and self.entails(st, n >= 0):
+                return n, (lambda i: i)
             return z3.If(n > 0, n, 0), (lambda i: self._add(lo, i))
-        if isinstance(it, tuple) and it and it[0] == 'enumerate':
-            n, f = self.iter_view(it[1], st)
+        if isinstance(it, IterV) and it.kind == 'enumerate':
+            n, f = self.iter_view(it.base, st)
             return n, (lambda i: (i, f(i)))
-        if isinstance(it, tuple) and it and it[0] == 'reversed':
-            n, f = self.iter_view(it[1], st)
+        if isinstance(it, IterV) and it.kind == 'reversed':
+            n, f = self.iter_view(it.base, st)
             return n, (lambda i: f(self._sub(self._sub(n, 1), i)))
-        if isinstance(it, tuple) and it and it[0] in ('keys', 'values', 'items'):
-            return self.iter_view(self.enumerate_map(it[1], it[0], st), st)
+        if isinstance(it, IterV):
+            return self.iter_view(self.enumerate_map(it.base, it.kind, st), st)
         if isinstance(it, tuple):
             return len(it), (lambda i: it[i])
         if isinstance(it, V) and it.ty.kind in ('list',):
